@@ -193,6 +193,11 @@ void* BatchPageAllocator::allocate() noexcept {
   if (local.next_page < local.buffer.end()) {
     return *local.next_page++;
   }
+  // 默认构造（未调用set_batch_size）或batch_size变更后
+  // 线程缓存大小可能与当前batch_size不一致，此时缓存已用尽，按需调整
+  if (ABSL_PREDICT_FALSE(local.buffer.size() != _batch_size)) {
+    local.buffer.resize(_batch_size);
+  }
   _upstream->allocate(local.buffer.data(), _batch_size);
   local.next_page = local.buffer.begin() + 1;
   return *local.buffer.data();
